@@ -48,9 +48,10 @@ PROPERTY = "C16"
 LEVEL = "exploration"
 ENGINE = "direct"
 TECHNIQUE = "differential against two strict X.509 verifiers (cryptography, OpenSSL X509_STRICT) + construction-time identity sets"
-BUDGET = {"quick": (900, 18), "thorough": (60_000, 200)}
+BUDGET = {"quick": (700, 15), "thorough": (60_000, 200)}
 WORKERS = {"quick": 2, "thorough": 16}
 REQUIRED = ["issued_by_ca", "valid_now", "server_auth", "strict_verify_cryptography", "strict_verify_openssl", "names_subset", "handshake_verified", "stale_custom_cert_checked",
+            "issued_at_t0", "issued_at_later_wall_clock", "issued_at_earlier_wall_clock", "issued_after_197_days_uptime",
             *[f"issued_under_tz:{z}" for z in ("UTC", "UTC-12", "UTC-5", "UTC-3:30", "UTC+5:30", "UTC+9", "UTC+12", "UTC+12:45", "UTC+14")]]
 RULE = (
     "case = (SNI class: short / random host / 63-byte label / 253-byte name / name longer than a CN / A-label / mixed case / "
@@ -62,7 +63,9 @@ RULE = (
     "history of the `certs` option through the real configure(): add / replace / remove of custom certificates registered by exact, "
     "wildcard, '*', bare-file, SAN or CN, after which the connection's SNI, server address or upstream SAN hits the spec that is "
     "no longer configured; a still-configured spec is a control and exempt) x (process time zone at issue time: UTC, UTC-12, -5, -3:30, +5:30, +9, +12, +12:45, +14, "
-    "set with TZ/tzset around the real issuance while validity is judged with the true UTC clock) x (CA: mitmproxy default / custom root + "
+    "set with TZ/tzset around the real issuance while validity is judged with the true UTC clock) x (virtual wall clock of the issuance relative to process start, same process: +0, +1, +100, +197..+200, +400 days "
+    "and set back by 1, 100, 400 days, installed as the `datetime` name mitmproxy.certs reads; verifiers run at the same virtual now; "
+    "a leaf served from the store cache is judged at its own issue time; the CA is created 600 virtual days earlier) x (CA: mitmproxy default / custom root + "
     "intermediate with non-SHA1 key identifier) x (observation: get_cert, or tls_start_client + in-memory strict handshake). "
     "distinct = that class tuple; non-trivial = a certificate was produced and both legs of strict verification were evaluated, "
     "or get_cert raised"
@@ -71,6 +74,8 @@ ASSUMPTIONS = [
     "client SNI values are restricted to what a ClientHello can carry after mitmproxy's own parsing (LDH/underscore labels <= 63, <= 253 bytes, A-labels, IP literals); server addresses are valid host names, U-label names or IP literals",
     "the reference identity for a scoped link-local local address is the address without the zone",
     "a verifier that cannot represent the identity (cryptography: underscore, trailing dot) is inconclusive and the other one decides",
+    "the wall clock is virtual: the `datetime` name in mitmproxy.certs is replaced by a pass-through shim whose datetime.now()/utcnow() add an offset to the real time (time zone handling unchanged); 'time of issue' is that virtual now, also handed to both verifiers; the process time zone is set with TZ + tzset",
+    "the CAs (mitmproxy's own, created 600 virtual days before t0; the custom chain with a +-800 day window) are valid over the whole range of virtual times, so only the leaf decides",
 ]
 LEVEL_TEXT = (
     "Exploration: identity and upstream-certificate forms are sampled from classes. Each produced certificate is decided "
@@ -272,6 +277,55 @@ def _is_ip(s):
 # environment: real TlsConfig with two certificate stores (default CA, custom root+intermediate)
 # ---------------------------------------------------------------------------------------------
 
+# ---------------------------------------------------------------------------------------------
+# virtual wall clock: the clock source mitmproxy.certs reads (datetime.datetime.now through its module-level `datetime`
+# name) is replaced by a shim that adds CLOCK["delta"] seconds to the real time; everything else of the datetime module is
+# passed through. The oracles judge at the same virtual now.
+# ---------------------------------------------------------------------------------------------
+
+CLOCK = {"delta": 0.0}
+DAY_S = 86400.0
+
+
+def vnow_utc():
+    return datetime.datetime.fromtimestamp(time.time() + CLOCK["delta"], datetime.timezone.utc)
+
+
+class _VirtualDatetime(datetime.datetime):
+    @classmethod
+    def now(cls, tz=None):
+        # plain datetime objects (not the subclass), local time of the process TZ when tz is None -- like the real one
+        return datetime.datetime.fromtimestamp(time.time() + CLOCK["delta"], tz)
+
+    @classmethod
+    def utcnow(cls):
+        return datetime.datetime.fromtimestamp(time.time() + CLOCK["delta"], datetime.timezone.utc).replace(tzinfo=None)
+
+    @classmethod
+    def today(cls):
+        return cls.now()
+
+
+class _DatetimeModuleShim:
+    datetime = _VirtualDatetime
+
+    def __getattr__(self, name):
+        return getattr(datetime, name)
+
+
+class wall_clock:
+    def __init__(self, delta_days):
+        self.delta = delta_days * DAY_S
+
+    def __enter__(self):
+        self.old = CLOCK["delta"]
+        CLOCK["delta"] = self.delta
+
+    def __exit__(self, *a):
+        CLOCK["delta"] = self.old
+        return False
+
+
 _STATE = {}
 
 
@@ -282,10 +336,19 @@ def state():
     atexit.register(pki.cleanup)
     ta = tlsconfig.TlsConfig()
     tctx = taddons.context(ta)
+    assert mcerts.datetime is datetime or isinstance(mcerts.datetime, _DatetimeModuleShim)
+    mcerts.datetime = _DatetimeModuleShim()
     d_default = pki.dir / "conf-default"
-    tctx.configure(ta, confdir=str(d_default))  # the real code creates its CA here
+    with wall_clock(-600):  # the CA is older than the leaves: created by the real code 600 (virtual) days ago
+        tctx.configure(ta, confdir=str(d_default))  # the real code creates its CA here
     store_default = ta.certstore
     # custom CA: RSA intermediate (key identifier = truncated SHA-256, RFC 7093) under an EC root; file = key + intermediate + root
+    # a custom chain that is valid over the whole range of virtual wall-clock times
+    wroot_key = P.key()
+    wroot = P.make_cert(subject=P.name("vf custom root (wide validity)", "vf custom"), pubkey=wroot_key.public_key(), issuer_cert=None, issuer_key=wroot_key, ca=True,
+                        not_before=P.now() - 900 * P.DAY, not_after=P.now() + 900 * P.DAY)
+    wroot_file = pki.dir / "custom-root-wide.pem"
+    wroot_file.write_bytes(P.pem_cert(wroot))
     ikey = rsa.generate_private_key(public_exponent=65537, key_size=2048)
     h = hashes.Hash(hashes.SHA256())
     h.update(ikey.public_key().public_bytes(serialization.Encoding.DER, serialization.PublicFormat.PKCS1))
@@ -293,23 +356,23 @@ def state():
     b = (
         x509.CertificateBuilder()
         .subject_name(P.name("vf custom intermediate", "vf custom"))
-        .issuer_name(pki.root_a.subject)
+        .issuer_name(wroot.subject)
         .public_key(ikey.public_key())
         .serial_number(x509.random_serial_number())
-        .not_valid_before(P.now() - 5 * P.DAY)
-        .not_valid_after(P.now() + 300 * P.DAY)
+        .not_valid_before(P.now() - 800 * P.DAY)
+        .not_valid_after(P.now() + 800 * P.DAY)
         .add_extension(x509.BasicConstraints(ca=True, path_length=0), critical=True)
         .add_extension(x509.KeyUsage(False, False, False, False, False, True, True, False, False), critical=True)
         .add_extension(x509.SubjectKeyIdentifier(ski), critical=False)
-        .add_extension(x509.AuthorityKeyIdentifier.from_issuer_public_key(pki.root_a.public_key()), critical=False)
+        .add_extension(x509.AuthorityKeyIdentifier.from_issuer_public_key(wroot.public_key()), critical=False)
     )
-    icert = b.sign(pki.root_a_key, hashes.SHA256())
+    icert = b.sign(wroot_key, hashes.SHA256())
     d_custom = pki.dir / "conf-custom"
     d_custom.mkdir()
     (d_custom / "mitmproxy-ca.pem").write_bytes(
         ikey.private_bytes(serialization.Encoding.PEM, serialization.PrivateFormat.TraditionalOpenSSL, serialization.NoEncryption())
         + P.pem_cert(icert)
-        + P.pem_cert(pki.root_a)
+        + P.pem_cert(wroot)
     )
     tctx.configure(ta, confdir=str(d_custom))
     store_custom = ta.certstore
@@ -320,8 +383,9 @@ def state():
     _STATE.update(
         pki=pki, ta=ta, tctx=tctx,
         stores={"default": store_default, "custom": store_custom},
-        roots={"default": root_default, "custom": pki.root_a},
-        rootfiles={"default": str(rd), "custom": str(pki.cafile_a)},
+        roots={"default": root_default, "custom": wroot},
+        rootfiles={"default": str(rd), "custom": str(wroot_file)},
+        issued_at={},
         inters={"default": [], "custom": [icert]},
         confdirs={"default": str(d_default), "custom": str(d_custom)},
         upstream_opt=None,
@@ -340,7 +404,7 @@ def verify_cryptography(leaf, inters, root, ident, is_ip):
     except ValueError as e:
         return "inconclusive", f"subject syntax: {e}"
     try:
-        v = verification.PolicyBuilder().store(verification.Store([root])).time(datetime.datetime.now(datetime.timezone.utc)).build_server_verifier(subject)
+        v = verification.PolicyBuilder().store(verification.Store([root])).time(vnow_utc()).build_server_verifier(subject)
     except ValueError as e:
         return "inconclusive", f"subject syntax: {e}"
     try:
@@ -360,6 +424,7 @@ class Unrepresentable(Exception):
 def _strict_param(param, ident, is_ip):
     SSL._lib.X509_VERIFY_PARAM_set_flags(param, SSL._lib.X509_V_FLAG_X509_STRICT)
     SSL._lib.X509_VERIFY_PARAM_set_hostflags(param, _HOSTFLAGS)
+    SSL._lib.X509_VERIFY_PARAM_set_time(param, int(time.time() + CLOCK["delta"]))  # verify at the virtual now
     if is_ip:
         packed = ipaddress.ip_address(ident).packed
         assert SSL._lib.X509_VERIFY_PARAM_set1_ip(param, packed, len(packed)) == 1
@@ -669,6 +734,19 @@ def run_case(ctx, r, tz="UTC"):
         return (*sig, "custom-current"), True, {"sni": sni, "certs_option_history": w["certs_option_history"]}
     if hist is not None:
         ctx.count("stale_custom_cert_checked")
+    # only fresh issuances are judged at the current virtual time; a leaf served from the store's cache is judged at the
+    # (virtual) time it was issued
+    fp = leaf.fingerprint(hashes.SHA256())
+    if fp in st["issued_at"]:
+        ctx.count("cached_leaf_judged_at_its_issue_time")
+        CLOCK["delta"] = st["issued_at"][fp]
+    else:
+        st["issued_at"][fp] = CLOCK["delta"]
+        d = CLOCK["delta"] / DAY_S
+        ctx.count("issued_at_t0" if d == 0 else ("issued_at_later_wall_clock" if d > 0 else "issued_at_earlier_wall_clock"))
+        if d >= 197:
+            ctx.count("issued_after_197_days_uptime")
+    w["virtual_wall_clock"] = f"t0{CLOCK['delta'] / DAY_S:+.0f}d"
     ca_cert = st["stores"][ca_k].default_ca.to_cryptography()
     root = st["roots"][ca_k]
     inters = st["inters"][ca_k]
@@ -685,7 +763,7 @@ def run_case(ctx, r, tz="UTC"):
         ctx.violation("not-issued-by-ca", {**w, "exc": repr(e)[:200], "leaf_issuer": leaf.issuer.rfc4514_string()})
     ctx.count("valid_now")
     ctx.count(f"issued_under_tz:{tz}")
-    now = datetime.datetime.now(datetime.timezone.utc)
+    now = vnow_utc()
     if not (leaf.not_valid_before_utc <= now <= leaf.not_valid_after_utc):
         ctx.violation("not-valid-now", {**w, "not_before": str(leaf.not_valid_before_utc), "not_after": str(leaf.not_valid_after_utc), "now": str(now)})
     ctx.count("server_auth")
@@ -776,9 +854,14 @@ def run(ctx):
         ctx.seen("ca_created_under_tz", ca_tz)
         for i in ctx.cases():
             tz = ctx.rng.choice(names)
-            with process_tz(tz):
+            # wall clock of this issuance relative to process start (same process, same imported mitmproxy.certs):
+            # forwards by a day .. beyond the leaf lifetime, and set back
+            days = ctx.rng.choice([0, 0, 0, 1, 100, 197, 198, 199, 200, 400, -1, -100, -400])
+            with process_tz(tz), wall_clock(days):
                 sig, nt, sample = run_case(ctx, ctx.rng, tz)
-            ctx.case((*sig, tz), nt, {**sample, "process_tz": tz} if isinstance(sample, dict) else sample)
+            tz_class = "utc" if tz == "UTC" else ("east" if "+" in tz else "west")
+            clock_class = "t0" if days == 0 else ("back" if days < 0 else ("later" if days < 197 else "beyond-leaf-lifetime"))
+            ctx.case((*sig, tz_class, clock_class), nt, {**sample, "process_tz": tz, "wall_clock_days_after_start": days} if isinstance(sample, dict) else sample)
     finally:
         if _STATE:
             _STATE["pki"].cleanup()
